@@ -68,11 +68,11 @@ def engine_variants(text, quick, rnd):
     for k, tag0, t2 in site_variants(text):
         if tag0 != "throw":
             continue
-        tags = ENGINE_ERRORS
-        if quick:
-            if k >= 4:
-                continue
-            tags = rnd.sample(ENGINE_ERRORS, 3)
+        # every site gets some of the errors, every error appears at many sites (all of them at every site would multiply the
+        # thorough tier's traces by ten: measured at more than 80 minutes of trace validation)
+        if quick and k >= 4:
+            continue
+        tags = rnd.sample(ENGINE_ERRORS, 3 if quick else 4)
         for tag, repl in tags:
             out.append((k, tag, ENGINE_PRELUDE + t2.replace("throw(7)", repl, 1) if t2.count("throw(7)") == 1 else None))
     return [x for x in out if x[2]]
